@@ -1194,6 +1194,8 @@ class Path:
             f = callnode.func
             if root.id == "self" and isinstance(f, ast.Attribute) and cfc.cls is not None:
                 base = f.value
+            elif root.id == "self" and isinstance(f, ast.Name) and cfc.cls is not None and cfc.name == "__call__":
+                base = f                                       # a callable object held in a local: obj(...)
             else:
                 names = [p for p in cfc.params]
                 if root.id not in names:
